@@ -24,7 +24,7 @@ COMMON_UNIT_NAMES = {"SECOND": "s", "KILOGRAM": "kg", "METER": "m", "PASCAL": "P
 
 META = {
     "explanation": (
-        "Table consistency of the unit system, decided on the AST with sympy as monomial normaliser. R1: each derived "
+        "Table consistency of the unit system, decided on the AST with an exact monomial normal form (exponent vectors). R1: each derived "
         "unit property of Units is the SI monomial in (kg, m, s) (Pa, J, N, W); `degree` is only required to be a "
         "multiple of rad (repo convention); every base unit attribute is read from the kwargs key of its own name and "
         "the permitted-key list equals the set of base units. Since Units forbids s != 1, a wrong exponent of s is "
@@ -41,61 +41,85 @@ META = {
         "of convert_units and the unit string given there has the constant's dimension. R6: a constant name declared "
         "in two independent SI_units tables has the same dimension in both. Not decided: unit invariance of simulations."),
     "rule_text": "one obligation per derived/base unit, per parser clause, per Constants subclass clause and field, per unit string, per constant use",
-    "trusted_base": ["python ast", "sympy (monomial normal form only)", "SI definitions of Pa, J, N, W", "sa.core"],
+    "trusted_base": ["python ast", "exact monomial arithmetic over Fractions (class Mono in this module)",
+                     "SI definitions of Pa, J, N, W", "sa.core"],
     "assumptions": ["unit strings that are not literals (values of variables, tags read back) are covered at the literal "
                     "sites they originate from", "f-string exponents are integers"],
-    "technique": "table extraction + monomial normalisation (sympy) + dataflow on the parser loop",
+    "technique": "table extraction + exact monomial normal form + dataflow on the parser loop",
 }
-MIN_INSTANCES = {"R1": 11, "R2": 8, "R3": 40, "R4": 60, "R5": 2, "R6": 3}
+MIN_INSTANCES = {"R1": 11, "R2": 8, "R3": 40, "R4": 50, "R5": 4, "R6": 3}
 
 
 # =====================================================================================
 #  monomials
 # =====================================================================================
 
-def _sym():
-    import sympy  # imported lazily: dominates the run time
-    return sympy
+from fractions import Fraction
 
 
-def expr_to_sympy(e: ast.expr, leaf):
-    """ast arithmetic over leaves -> sympy; leaf(node) returns a sympy object or None."""
-    sp = _sym()
+class Mono:
+    """coefficient * pi**pi_pow * prod(symbol**exponent); exact arithmetic (Fractions).
+    A 20-line replacement for a computer-algebra monomial normal form: unit expressions in the
+    repo are products/quotients/constant powers only."""
+
+    def __init__(self, coeff=Fraction(1), pi_pow=Fraction(0), exps=None):
+        self.coeff, self.pi_pow, self.exps = Fraction(coeff), Fraction(pi_pow), dict(exps or {})
+
+    def _norm(self):
+        self.exps = {k: v for k, v in self.exps.items() if v != 0}
+        return self
+
+    def __mul__(self, o):
+        e = dict(self.exps)
+        for k, v in o.exps.items():
+            e[k] = e.get(k, Fraction(0)) + v
+        return Mono(self.coeff * o.coeff, self.pi_pow + o.pi_pow, e)._norm()
+
+    def inv(self):
+        return Mono(1 / self.coeff, -self.pi_pow, {k: -v for k, v in self.exps.items()})
+
+    def pow(self, p: Fraction):
+        if p.denominator != 1 and self.coeff != 1:
+            raise Undecided("fractional power of a numeric coefficient")
+        c = self.coeff ** int(p) if p.denominator == 1 else Fraction(1)
+        return Mono(c, self.pi_pow * p, {k: v * p for k, v in self.exps.items()})._norm()
+
+    def is_number(self):
+        return not self.exps
+
+    def coeff_text(self) -> str:
+        t = str(self.coeff)
+        if self.pi_pow:
+            t += f"*pi^{self.pi_pow}"
+        return t
+
+
+def expr_to_mono(e: ast.expr, leaf) -> Mono:
+    """ast arithmetic (*, /, ** constant, unary -) over leaves -> Mono; leaf(node) returns a Mono or None."""
     if isinstance(e, ast.Constant) and isinstance(e.value, (int, float)) and not isinstance(e.value, bool):
-        return sp.nsimplify(e.value, rational=True)
+        return Mono(Fraction(repr(e.value)))
     if isinstance(e, ast.BinOp):
-        l, r = expr_to_sympy(e.left, leaf), expr_to_sympy(e.right, leaf)
         if isinstance(e.op, ast.Mult):
-            return l * r
+            return expr_to_mono(e.left, leaf) * expr_to_mono(e.right, leaf)
         if isinstance(e.op, ast.Div):
-            return l / r
+            return expr_to_mono(e.left, leaf) * expr_to_mono(e.right, leaf).inv()
         if isinstance(e.op, ast.Pow):
-            return l ** r
+            p = expr_to_mono(e.right, leaf)
+            if not p.is_number() or p.pi_pow:
+                raise Undecided(f"exponent in `{u(e)}` is not a number")
+            return expr_to_mono(e.left, leaf).pow(p.coeff)
         raise Undecided(f"operator in `{u(e)}` is not a monomial operation")
     if isinstance(e, ast.UnaryOp) and isinstance(e.op, ast.USub):
-        return -expr_to_sympy(e.operand, leaf)
+        m = expr_to_mono(e.operand, leaf)
+        return Mono(-m.coeff, m.pi_pow, m.exps)
     v = leaf(e)
     if v is None:
         raise Undecided(f"cannot translate `{u(e)}`")
     return v
 
 
-def exponents(expr, names: list[str]) -> tuple[dict, object]:
-    """(exponent vector over `names`, remaining numeric coefficient) of a monomial."""
-    sp = _sym()
-    expr = sp.powsimp(sp.simplify(expr), force=True)
-    powers = expr.as_powers_dict()
-    vec = {}
-    coeff = sp.Integer(1)
-    for base, p in powers.items():
-        if isinstance(base, sp.Symbol) and base.name in names:
-            if p != 0:
-                vec[base.name] = p
-        elif base.free_symbols:
-            raise Undecided(f"`{expr}` is not a monomial in {names}")
-        else:
-            coeff *= base ** p
-    return vec, coeff
+def _fmt_vec(vec: dict) -> dict:
+    return {k: (int(v) if Fraction(v).denominator == 1 else str(v)) for k, v in sorted(vec.items())}
 
 
 class UnitSystem:
@@ -104,41 +128,34 @@ class UnitSystem:
     def __init__(self, base: list[str], derived: dict[str, ast.expr]):
         self.base = base
         self.derived = derived
-        self._cache: dict[str, dict] = {}
+        self._cache: dict[str, Mono] = {}
 
     def names(self) -> set[str]:
         return set(self.base) | set(self.derived)
 
-    def vector_of(self, name: str) -> dict:
-        """exponent vector over base units (numeric factors dropped)."""
+    def mono_of(self, name: str, depth: int = 0) -> Mono:
         if name in self.base:
-            return {name: 1}
+            return Mono(exps={name: Fraction(1)})
+        if depth > 6:
+            raise Undecided(f"Units.{name}: cyclic definition")
         if name not in self._cache:
-            sp = _sym()
-
             def leaf(n):
-                if isinstance(n, ast.Attribute) and isinstance(n.value, ast.Name) and n.value.id == "self":
-                    if n.attr in self.base:
-                        return sp.Symbol(n.attr, positive=True)
-                    if n.attr in self.derived:
-                        return sp.Mul(*[sp.Symbol(k, positive=True) ** v for k, v in self.vector_of(n.attr).items()])
+                if isinstance(n, ast.Attribute) and isinstance(n.value, ast.Name) and n.value.id == "self" \
+                        and (n.attr in self.base or n.attr in self.derived):
+                    return self.mono_of(n.attr, depth + 1)
                 if dotted(n) in ("np.pi", "numpy.pi", "math.pi"):
-                    return sp.pi
+                    return Mono(pi_pow=Fraction(1))
                 return None
-            vec, _ = exponents(expr_to_sympy(self.derived[name], leaf), self.base)
-            self._cache[name] = vec
+            self._cache[name] = expr_to_mono(self.derived[name], leaf)
         return self._cache[name]
 
-    def coefficient_of(self, name: str):
-        sp = _sym()
+    def vector_of(self, name: str) -> dict:
+        """exponent vector over base units (numeric factors dropped)."""
+        return dict(self.mono_of(name).exps)
 
-        def leaf(n):
-            if isinstance(n, ast.Attribute) and isinstance(n.value, ast.Name) and n.value.id == "self" and n.attr in self.base:
-                return sp.Symbol(n.attr, positive=True)
-            if dotted(n) in ("np.pi", "numpy.pi", "math.pi"):
-                return sp.pi
-            return None
-        return exponents(expr_to_sympy(self.derived[name], leaf), self.base)[1]
+    def coefficient_of(self, name: str) -> Mono:
+        m = self.mono_of(name)
+        return Mono(m.coeff, m.pi_pow)
 
 
 def tokenise(text: str, strip_blanks: bool, shortcuts: list[str], known: set[str]):
@@ -166,11 +183,10 @@ def tokenise(text: str, strip_blanks: bool, shortcuts: list[str], known: set[str
 
 
 def vector_of_string(tokens, us: UnitSystem) -> dict:
-    sp = _sym()
     vec: dict = {}
     for name, p in tokens:
         for b, e in us.vector_of(name).items():
-            vec[b] = vec.get(b, 0) + e * sp.nsimplify(p, rational=True)
+            vec[b] = vec.get(b, Fraction(0)) + e * Fraction(repr(float(p)))
     return {k: v for k, v in vec.items() if v != 0}
 
 
@@ -222,17 +238,18 @@ def _units_system(ctx: Ctx):
             vec = us.vector_of(name)
             want = SI_DERIVED[name]
             coeff = us.coefficient_of(name)
-            ok = {k: int(v) for k, v in vec.items()} == want and coeff == 1
+            ok = vec == {k: Fraction(v) for k, v in want.items()} and coeff.coeff == 1 and coeff.pi_pow == 0
             ctx.check("R1", ok, mod, f"Units.{name}", derived[name],
-                      f"derived unit {name} must be the SI monomial {want}; the property computes {dict(vec)} (factor {coeff})",
-                      construct=f"{name} = {dict(sorted((k, int(v)) for k, v in vec.items()))} * {coeff}",
+                      f"derived unit {name} must be the SI monomial {want}; the property computes {_fmt_vec(vec)} "
+                      f"(factor {coeff.coeff_text()})",
+                      construct=f"{name} = {_fmt_vec(vec)} * {coeff.coeff_text()}",
                       facts={"expr": u(derived[name]), "exponents": {k: str(v) for k, v in vec.items()}})
             ctx.sample({"rule": "R1", "unit": name, "expr": u(derived[name]), "exponents": {k: str(v) for k, v in vec.items()}})
         elif name in CONVENTION_UNITS:
             vec = us.vector_of(name)
-            ctx.check("R1", {k: int(v) for k, v in vec.items()} == {CONVENTION_UNITS[name]: 1}, mod, f"Units.{name}", derived[name],
+            ctx.check("R1", vec == {CONVENTION_UNITS[name]: Fraction(1)}, mod, f"Units.{name}", derived[name],
                       f"{name} must be a numeric multiple of {CONVENTION_UNITS[name]} (the factor is the repo's convention and is "
-                      f"not checked); exponents {dict(vec)}", construct=f"{name} ~ {dict(vec)}")
+                      f"not checked); exponents {_fmt_vec(vec)}", construct=f"{name} ~ {_fmt_vec(vec)}")
         else:
             raise Undecided(f"Units.{name}: derived unit without an SI definition in the checker's table")
     return mod, cls, meths, us
@@ -696,7 +713,6 @@ def _collect_sites(ctx: Ctx, unit_sites: list) -> tuple[int, int]:
 # =====================================================================================
 
 def _constant_dimensions(ctx: Ctx, us: UnitSystem) -> dict[str, dict]:
-    sp = _sym()
     m = ctx.repo.module(COMMON)
     defs: dict[str, ast.expr] = {}
     for s in m.tree.body:
@@ -704,44 +720,38 @@ def _constant_dimensions(ctx: Ctx, us: UnitSystem) -> dict[str, dict]:
             defs[s.targets[0].id] = s.value
     if "GRAVITY_ACCELERATION" not in defs:
         raise AnchorError("common_constants.GRAVITY_ACCELERATION missing")
-    cache: dict[str, object] = {}
+    cache: dict[str, Mono | None] = {}
 
-    def sym_of(name: str, depth=0):
+    def mono_of(name: str, depth=0):
         if name in cache:
             return cache[name]
         if depth > 10 or name not in defs:
             raise Undecided(f"common_constants: cannot resolve {name}")
         if name in COMMON_UNIT_NAMES:
             unit = COMMON_UNIT_NAMES[name]
-            val = sp.Mul(*[sp.Symbol(k, positive=True) ** v for k, v in (us.vector_of(unit) if unit in us.names() else {unit: 1}).items()])
+            val = Mono(exps=us.vector_of(unit) if unit in us.names() else {unit: Fraction(1)})
         else:
             def leaf(n):
                 if isinstance(n, ast.Name):
-                    return sym_of(n.id, depth + 1)
+                    return mono_of(n.id, depth + 1)
                 return None
             try:
-                val = expr_to_sympy(defs[name], leaf)
-            except Undecided:
+                val = expr_to_mono(defs[name], leaf)
+            except (Undecided, TypeError):
                 val = None
         cache[name] = val
         return val
     dims = {}
     for name in defs:
-        v = sym_of(name)
-        if v is None:
-            continue
-        try:
-            vec, _ = exponents(v, us.base)
-        except Undecided:
-            continue
-        if vec:
-            dims[name] = {k: v for k, v in vec.items()}
+        v = mono_of(name)
+        if v is not None and v.exps:
+            dims[name] = dict(v.exps)
     return dims
 
 
 def _check_constants_use(ctx: Ctx, us: UnitSystem, strip_blanks, shortcuts) -> None:
     dims = _constant_dimensions(ctx, us)
-    ctx.sample({"rule": "R5", "dimensional_constants": {k: {a: str(b) for a, b in v.items()} for k, v in dims.items()}})
+    ctx.sample({"rule": "R5", "dimensional_constants": {k: _fmt_vec(v) for k, v in dims.items()}})
     known = us.names()
     rels = ctx.repo.all_py("src/porepy/models")
     other = [r for r in ctx.repo.all_py("src/porepy") if not r.startswith("src/porepy/models") and r != COMMON] \
@@ -777,7 +787,7 @@ def _check_constants_use(ctx: Ctx, us: UnitSystem, strip_blanks, shortcuts) -> N
                             ctx.note(f"{rel}:{qn}: pp.{n.attr} used outside convert_units (outside models/: note only)")
                         continue
                     ctx.check("R5", reaches, m, qn, n,
-                              f"pp.{n.attr} has dimension {dims[n.attr]}; under models/ it must enter the simulation only through "
+                              f"pp.{n.attr} has dimension {_fmt_vec(dims[n.attr])}; under models/ it must enter the simulation only through "
                               f"units.convert_units(<constant>, <unit string>)", construct=f"pp.{n.attr} reaches convert_units",
                               facts={"dimension": {k: str(v) for k, v in dims[n.attr].items()}})
                     for c in [c for c in calls if c is not None]:
@@ -790,8 +800,8 @@ def _check_constants_use(ctx: Ctx, us: UnitSystem, strip_blanks, shortcuts) -> N
                         tosi = kwarg(c, "to_si")
                         ctx.check("R5", ok and vec == dims[n.attr] and (tosi is None or (isinstance(tosi, ast.Constant) and tosi.value is False)),
                                   m, qn, c,
-                                  f"pp.{n.attr} has dimension {dims[n.attr]} but is converted with unit string '{text}' "
-                                  f"= {vec if ok else why} (SI -> simulation units, to_si must be off)",
+                                  f"pp.{n.attr} has dimension {_fmt_vec(dims[n.attr])} and is converted with unit string '{text}' "
+                                  f"= {_fmt_vec(vec) if ok else why} (must agree; SI -> simulation units, to_si off)",
                                   construct=f"pp.{n.attr} converted as '{text}'",
                                   facts={"constant_dimension": {k: str(v) for k, v in dims[n.attr].items()},
                                          "string_dimension": {k: str(v) for k, v in (vec or {}).items()}})
@@ -847,7 +857,7 @@ def run(ctx: Ctx) -> None:
                 v1, v2 = vector_of_string(k1, us), vector_of_string(k2, us)
                 ctx.check("R6", v1 == v2, ct[n2].mod, f"{n2}.SI_units", node2,
                           f"constant `{k}` is declared '{t1}' in {n1} and '{t2}' in {n2}: "
-                          + ("same dimension" if v1 == v2 else f"different dimensions {v1} vs {v2}"),
+                          + ("same dimension" if v1 == v2 else f"different dimensions {_fmt_vec(v1)} vs {_fmt_vec(v2)}"),
                           construct=f"{k}: {n1} '{t1}' vs {n2} '{t2}'")
     _check_constants_use(ctx, us, strip_blanks, shortcuts)
 
@@ -865,7 +875,7 @@ MUTANTS = [
     _m("J-length-power", UNITS, "return self.kg * self.m**2 / self.s**2", "return self.kg * self.m / self.s**2", "R1"),
     _m("base-unit-wrong-key", UNITS, 'self.kg: number = kwargs.get("kg", 1)', 'self.kg: number = kwargs.get("m", 1)', "R1"),
     _m("permitted-keys-miss-rad", UNITS, 'if key not in ["m", "s", "kg", "K", "mol", "rad"]:', 'if key not in ["m", "s", "kg", "K", "mol"]:', "R1"),
-    _m("both-arms-multiply", UNITS, "            else:\n                value /= factor", "            else:\n                value *= factor", "R2", control=True),
+    _m("both-arms-multiply", UNITS, "            else:\n                value /= factor", "            else:\n                value *= factor", "R2"),
     _m("direction-flipped", UNITS, "            if to_si:\n                value *= factor", "            if not to_si:\n                value *= factor", "R2"),
     _m("no-copy-of-ndarray", UNITS, "        if isinstance(value, np.ndarray):\n            value = value.copy()\n", "", "R2"),
     _m("power-name-swapped", UNITS, 'sub_unit, power = sub_unit.split("^")', 'power, sub_unit = sub_unit.split("^")', "R2"),
@@ -883,11 +893,11 @@ MUTANTS = [
        "return type(self)(name=self.name, units=units, **{k: getattr(self, k) for k in self.constants_in_SI})", "R3"),
     _m("post-init-converts-to-si", MATERIALS, "v_in_custom_units = self.units.convert_units(v, si_unit)",
        "v_in_custom_units = self.units.convert_units(v, si_unit, to_si=True)", "R3"),
-    _m("unit-string-unknown-name", MATERIALS, '"molar_mass": "kg * mol^-1",', '"molar_mass": "kg * mmol^-1",', "R4", control=True),
+    _m("unit-string-unknown-name", MATERIALS, '"molar_mass": "kg * mol^-1",', '"molar_mass": "kg * mmol^-1",', "R4"),
     _m("unit-string-slash", CL, 'val = self.units.convert_units(pp.GRAVITY_ACCELERATION, "m*s^-2")', 'val = self.units.convert_units(pp.GRAVITY_ACCELERATION, "m/s^2")', "R4"),
     _m("unit-string-double-caret", MATERIALS, '"compressibility": "Pa^-1",', '"compressibility": "Pa^^-1",', "R4"),
     _m("tag-unit-typo", "src/porepy/models/energy_balance.py", 'tags={"si_units": "J * kg^-1"},', 'tags={"si_units": "J * Kg^-1"},', "R4"),
-    _m("gravity-wrong-time-power", FPL, 'val = self.units.convert_units(g_constant, "m*s^-2")', 'val = self.units.convert_units(g_constant, "m*s^-1")', "R5", control=True),
+    _m("gravity-wrong-time-power", FPL, 'val = self.units.convert_units(g_constant, "m*s^-2")', 'val = self.units.convert_units(g_constant, "m*s^-1")', "R5"),
     _m("gravity-unconverted", FPL, 'val = self.units.convert_units(g_constant, "m*s^-2")', "val = g_constant", "R5"),
     _m("gravity-as-pressure", CL, 'val = self.units.convert_units(pp.GRAVITY_ACCELERATION, "m*s^-2")', 'val = self.units.convert_units(pp.GRAVITY_ACCELERATION, "Pa")', "R5"),
     _m("sibling-dimension-differs", MATERIALS, '"skin_factor": "-",\n            "specific_heat_capacity": "J * kg^-1 * K^-1",',
